@@ -53,7 +53,9 @@ func (pv *ResponseBatchItem) TagEncodeTTLV(e *ttlv.Encoder, tag int) {
 			e.ByteString(TagUniqueBatchItemID, pv.UniqueBatchItemID)
 		}
 		e.Any(pv.ResultStatus)
-		if pv.ResultStatus != ResultStatusSuccess || pv.ResultReason != 0 {
+		// The result reason is required for failures only: a pending or undone result which
+		// has none must not get one.
+		if pv.ResultStatus == ResultStatusOperationFailed || pv.ResultReason != 0 {
 			e.Any(pv.ResultReason)
 		}
 		if pv.ResultMessage != "" {
